@@ -153,15 +153,18 @@ def ensure_facts(config='all', repo=REPO, target_dir=None, verbose=False):
         lock.close()
 
 
-def _prune(cfgdir, keep, maxn=4):
+def _prune(cfgdir, keep, maxn=12, min_age_s=3600):
+    """Drop old fact directories (never one younger than an hour: a concurrent check may be reading it)."""
     ents = []
+    now = time.time()
     for d in os.listdir(cfgdir):
         p = os.path.join(cfgdir, d)
         if os.path.isdir(p) and p != keep:
             ents.append((os.path.getmtime(p), p))
     ents.sort(reverse=True)
-    for _, p in ents[maxn - 1:]:
-        shutil.rmtree(p, ignore_errors=True)
+    for mt, p in ents[maxn - 1:]:
+        if now - mt > min_age_s:
+            shutil.rmtree(p, ignore_errors=True)
 
 
 if __name__ == '__main__':
